@@ -918,7 +918,8 @@ ASSEMBLED_OBLIGATIONS = [
     "sync_ok", "xfFvi_src", "xfFromVec_src", "xfFromVecInplace_src", "xfAsVec_src", "xfNParams_src", "shapeFromVec_src",
     "shapeAsVec_src", "shapeNParams_src", "imgFromVec_src", "imgFromVecN_src", "imgAsVec_src", "imgAsVecKeep_src",
     "imgFvi_src", "src_as_vector_read_only", "src_as_vector_total", "src_xf_from_as", "src_xf_as_from",
-    "src_xf_length_eq_nparams", "src_alignment_target_resynced", "src_alignment_target_resynced_inplace",
+    "src_xf_length_eq_nparams", "src_alignment_target_resynced", "src_alignment_target_resynced_any",
+    "src_alignment_target_resynced_inplace",
     "src_xf_rejected_or_wellformed", "src_xf_right_length_accepted", "src_shape_from_as", "src_shape_as_from",
     "src_shape_rejected_or_wellformed", "src_img_from_as", "src_img_as_from", "src_masked_vector_layout", "src_img_fromVecN"]
 DTYPE_OBLIGATIONS = [
